@@ -127,3 +127,5 @@ Fixpoint find_fst {B} (l : list (N * B)) (k : N) (i : N) : option N :=
   | (x, _) :: l' => if x =? k then Some i else find_fst l' k (i + 1)
   end.
 Definition obsearch_fst {B} (l : list (N * B)) (k : N) : outcome N := ounwrap (find_fst l k 0).
+(* -a on iW *)
+Definition zineg (w : N) (a : Z) : outcome Z := if zin w (- a)%Z then Val (- a)%Z else Fault Overflow.
